@@ -3,12 +3,13 @@
 # and the Rust harness against /repo's working tree with the hooks on.
 set -e
 export CARGO_NET_OFFLINE=true
-cd /verif/coq
-python3 /verif/tools/mkproject.py
+V="$(cd "$(dirname "$0")/.." && pwd)"
+cd "$V/coq"
+python3 "$V/tools/mkproject.py"
 # -k: a file of a check still under construction must not stop the others; every check re-runs its own targeted make
 timeout 3000 make -j16 -k || echo "setup: some Coq files did not compile (see above); each check reports on its own targets"
-cd /verif/harness
+cd "$V/harness"
 [ -f Cargo.lock ] || cp /repo/Cargo.lock .
-mkdir -p /verif/build/harness-target
-RUSTFLAGS="--cfg prometheus_verif" timeout 3000 cargo build --offline --target-dir /verif/build/harness-target
+mkdir -p "$V/build/harness-target"
+RUSTFLAGS="--cfg prometheus_verif" timeout 3000 cargo build --offline --target-dir "$V/build/harness-target"
 echo "setup done"
